@@ -55,7 +55,7 @@ int main( int argc, char** argv )
    if( thorough )
       fams.push_back( { "indirect_recursion_through_operator_pairs", { CORE_OPS, CONV_OPS, "REP2", "REP_MIN1", "RMM12", "REP_OPT2", "TC_RF", "TC_RN", "ENABLE", "STATE", "ACTION_ALT", "RAW1", "CUSTOM_ANY" }, { FILLERS_SMALL, CORE_OPS, CONV_OPS, "REP2", "REP_MIN1", "RMM12", "REP_OPT2", "TC_RF", "TC_RN", "ENABLE", "STATE", "ACTION_ALT", "RAW1", "CUSTOM_ANY" }, 3, false } );
    else
-      fams.push_back( { "indirect_recursion_through_classical_operators", { "SEQ", "SOR", "STAR", "OPT", "IF_THEN_ELSE", "REMATCH", "CUSTOM_ANY" }, { FILLERS_SMALL, "SEQ", "SOR", "OPT", "AT", "NOT_AT", "CUSTOM_ANY" }, 3, false } );
+      fams.push_back( { "indirect_recursion_through_classical_operators", { "SEQ", "SOR", "STAR", "IF_THEN_ELSE", "CUSTOM_ANY" }, { FILLERS_SMALL, "SEQ", "SOR", "NOT_AT", "CUSTOM_ANY" }, 3, false } );
 
    const std::string sigma = "ab[";
    std::vector< std::string > inputs;
